@@ -32,6 +32,17 @@ def run_seg_cases(ctx, pairs, stream, judge):
         body = impl.pos_bytes(L, salt=k)
         cases.append((cap, eflr, ty, body))
     outs = [impl.outcome(lambda c=c: impl.impl_segments(*c)) for c in cases]
+    # the segmenter has no mode: the same call inside high_compatibility_mode() must give the same segments
+    from dliswriter import high_compatibility_mode
+    with high_compatibility_mode():
+        outs_hc = [impl.outcome(lambda c=c: impl.impl_segments(*c)) for c in cases]
+    for c, o, oh in zip(cases, outs, outs_hc):
+        ctx.stat(stream, 'also-run-in-high-compatibility-mode')
+        if (o[0], list(o[1]) if o[0] == 'ok' else o[1]) != (oh[0], list(oh[1]) if oh[0] == 'ok' else oh[1]):
+            ctx.violation('segments-depend-on-high-compatibility-mode',
+                          {'cap': c[0], 'eflr': c[1], 'type': c[2], 'body_len': len(c[3]), 'body': c[3],
+                           'default': [s.hex() for s in o[1]] if o[0] == 'ok' else o,
+                           'high_compat': [s.hex() for s in oh[1]] if oh[0] == 'ok' else oh})
     reps = ctx.model_batch([[3, cap, [eflr, ty, body]] for cap, eflr, ty, body in cases])
     rd_req, rd_idx = [], []
     for k, (st, v) in enumerate(outs):
@@ -144,10 +155,19 @@ def real_cases(ctx, n, vrls=None):
 
 def run_real(ctx, n, stream, judge, vrls=None):
     k = 0
+    late = ctx.rng('real-late')
     for vrl, payloads, rng in real_cases(ctx, n, vrls):
         ident = 'MAIN-STORAGE-UNIT'
+        # a third of the files get their record length through the label after construction, a sixth after a first write
+        mode = late.choice(['ctor', 'ctor', 'ctor', 'late', 'late', 'rewrite'])
+        other = late.choice([20, 64, 512, 8192, 16384])
         try:
-            df, info = impl.simple_file(rng, vrl=vrl, nofmt_payloads=payloads, ident=ident)
+            df, info = impl.simple_file(rng, vrl=vrl, nofmt_payloads=payloads, ident=ident,
+                                        first_vrl=other if mode == 'late' else None)
+            if mode == 'rewrite':
+                df.storage_unit_label.max_record_length = other
+                impl.outcome(lambda: impl.write_real(df))
+                df.storage_unit_label.max_record_length = vrl
             o = impl.outcome(lambda: impl.write_real(df, in_chunk=rng.choice([None, 1, 2, 3])))
         except Exception as e:  # noqa
             o = ('err', 'build:' + type(e).__name__)
@@ -156,6 +176,7 @@ def run_real(ctx, n, stream, judge, vrls=None):
         if o[0] == 'ok':
             rd = ctx.model.one([8, 1, vrl, text(ident), o[1]['file']])
         ctx.count(stream, key=(vrl, k))
+        ctx.stat(stream, 'length-given:' + mode)
         if o[0] == 'ok':
             ctx.stat(stream, 'records', len(o[1]['recs']))
             ctx.stat(stream, 'bytes', len(o[1]['file']))
@@ -164,5 +185,6 @@ def run_real(ctx, n, stream, judge, vrls=None):
         if len(ctx.samples) < 8 and k % 13 == 0:
             ctx.sample({'stream': stream, 'vrl': vrl, 'payload_lengths': [len(p) for p in payloads],
                         'records': [(e, t, len(b)) for e, t, b in o[1]['recs']][:12] if o[0] == 'ok' else o})
-        judge({'vrl': vrl, 'payload_lengths': [len(p) for p in payloads], 'index': k}, o, rd, info)
+        judge({'vrl': vrl, 'payload_lengths': [len(p) for p in payloads], 'index': k, 'length_given': mode,
+               'other_length': other}, o, rd, info)
         k += 1
